@@ -1596,7 +1596,13 @@ class Engine(MatrixTheory, NumpyTheory, Evaluator):
                         st.heap.objs[obj.ref][a] = self.fresh_value(infer_etype(cur), a, st)
             elif m not in names:
                 cur = st.env.get(m)
-                if isinstance(cur, VRag):
+                if isinstance(cur, VMat):
+                    # an array written in place inside the loop: same shape, arbitrary content at the loop head
+                    rc = st.heap.rags[cur.ref]
+                    srt_ = rc.data.sort().range().range()
+                    nd_ = z3.Array(fresh_name(m + '.rows'), z3.IntSort(), z3.ArraySort(z3.IntSort(), srt_))
+                    st.heap.rags[cur.ref] = RagCell(rc.etype, rc.count, rc.lens, nd_)
+                elif isinstance(cur, VRag):
                     rc = st.heap.rags[cur.ref]
                     tmp, cnt, lens = st.heap.fresh_rag(rc.etype, m)
                     q = z3.Int(fresh_name('q'))
